@@ -28,6 +28,7 @@ class Check(AddCheck):
         n_max, max_src = (3, 2) if tier == 'quick' else (5, 3)
         yield from gens.merge_cases_item(n_max=n_max, max_src=max_src)
         yield from gens.merge_cases_multi_move('item', rng)
+        yield from gens.merge_cases_padded()
         n_hist = 150 if tier == 'quick' else 1500
         for state in history_states(rng, n_hist, 10):
             sids, items = gens.state_ids(state)
